@@ -25,6 +25,7 @@ import (
 	"path/filepath"
 	"regexp"
 	"sort"
+	"strconv"
 	"strings"
 	"time"
 
@@ -737,14 +738,126 @@ func (k *kase) correspondNames(rep *hx.Report, ans string) {
 
 // ---- shared execution ----
 
-func sharedOracle(rep *hx.Report, dir string, goroutines, rounds int) {
+// (1) single goroutine, deterministic: a reflection-based deep fingerprint of everything
+// reachable from the *parser.Program (unexported fields, slices up to capacity, maps,
+// compiled regexes) before and after each execution
+func fingerprintOracle(rep *hx.Report, dir string) {
 	for _, w := range shared.Works() {
 		rep.SearchEvals++
-		res := shared.RunShared(w, dir, 3, goroutines, rounds)
-		d := map[string]any{"kind": "shared", "work": w.Name, "program": w.Src, "input_hex": hx.HexS(w.Input), "data_hex": hx.HexS(w.Data),
-			"goroutines": goroutines, "rounds": rounds}
+		step, gone, added, out, err := shared.FingerprintRun(w, dir)
+		if err != nil {
+			rep.HarnessError("shared workload %s: %v", w.Name, err)
+			continue
+		}
+		if step != "" {
+			rep.Fail(hx.Failure{Class: "shared-program:program-changed-by-execution", Oracle: "execution-leaves-the-program-unchanged(deep fingerprint)",
+				Detail: map[string]any{"kind": "fingerprint", "work": w.Name, "program": w.Src, "input_hex": hx.HexS(w.Input), "data_hex": hx.HexS(w.Data),
+					"mode": w.Mode, "changed_after": step, "expected": "fingerprint of the Program equal before and after",
+					"got": map[string]any{"lines_only_before": gone, "lines_only_after": added}, "output": short(out)}})
+			continue
+		}
+		rep.Count("fingerprint:" + w.Name + ":unchanged")
+	}
+}
+
+// what a worker child prints (one JSON document) for one Work
+type workerResult struct {
+	Work      string `json:"work"`
+	ParseErr  string `json:"parse_err,omitempty"`
+	Execs     int    `json:"execs"`
+	BadLabel  string `json:"bad_label,omitempty"`
+	Reference string `json:"reference"`
+	Got       string `json:"got,omitempty"`
+	Changed   bool   `json:"changed"`
+	Gone      []string `json:"gone,omitempty"`
+	Added     []string `json:"added,omitempty"`
+}
+
+// workerMain: C19_WORKER=<work name> C19_WORKER_G=<goroutines> C19_WORKER_R=<rounds>: run the
+// concurrent workload for one Work in THIS process and print the result.  A Go runtime fatal
+// error (concurrent map writes, ...) cannot be recovered: it kills this child, not the harness.
+func workerMain(name string) {
+	g, _ := strconv.Atoi(os.Getenv("C19_WORKER_G"))
+	rounds, _ := strconv.Atoi(os.Getenv("C19_WORKER_R"))
+	dir, err := os.MkdirTemp("", "c19w")
+	if err != nil {
+		fmt.Println(`{"parse_err":"tempdir"}`)
+		os.Exit(0)
+	}
+	defer os.RemoveAll(dir)
+	for _, w := range shared.Works() {
+		if w.Name != name {
+			continue
+		}
+		res := shared.RunShared(w, dir, 3, g, rounds)
+		out := workerResult{Work: w.Name, Execs: len(res.Outputs), Reference: res.Reference}
 		if res.ParseErr != nil {
-			rep.HarnessError("shared workload %s does not parse: %v", w.Name, res.ParseErr)
+			out.ParseErr = res.ParseErr.Error()
+		}
+		for i, o := range res.Outputs {
+			if o != res.Reference {
+				out.BadLabel, out.Got = res.Labels[i], o
+				break
+			}
+		}
+		if res.SnapBefore != res.SnapAfter {
+			out.Changed = true
+		}
+		out.Gone, out.Added = shared.FingerprintDiff(res.FpBefore, res.FpAfter, 12)
+		if len(out.Gone)+len(out.Added) > 0 {
+			out.Changed = true
+		}
+		b, _ := json.Marshal(out)
+		os.Stdout.Write(b)
+		os.RemoveAll(dir)
+		os.Exit(0)
+	}
+	fmt.Println(`{"parse_err":"unknown work"}`)
+	os.Exit(0)
+}
+
+// (2) one Program, several goroutines x (ExecProgram | New + Execute...), in a child process
+func sharedOracle(rep *hx.Report, dir string, goroutines, rounds int) {
+	self, err := os.Executable()
+	if err != nil {
+		rep.HarnessError("os.Executable: %v", err)
+		return
+	}
+	for _, w := range shared.Works() {
+		rep.SearchEvals++
+		d := map[string]any{"kind": "shared", "work": w.Name, "program": w.Src, "input_hex": hx.HexS(w.Input), "data_hex": hx.HexS(w.Data),
+			"mode": w.Mode, "goroutines": goroutines, "rounds": rounds}
+		cmd := exec.Command(self)
+		cmd.Env = append(os.Environ(), "C19_WORKER="+w.Name, fmt.Sprintf("C19_WORKER_G=%d", goroutines), fmt.Sprintf("C19_WORKER_R=%d", rounds))
+		var stdout, stderr bytes.Buffer
+		cmd.Stdout, cmd.Stderr = &stdout, &stderr
+		done := make(chan error, 1)
+		if err := cmd.Start(); err != nil {
+			rep.HarnessError("cannot start worker: %v", err)
+			return
+		}
+		go func() { done <- cmd.Wait() }()
+		var werr error
+		select {
+		case werr = <-done:
+		case <-time.After(120 * time.Second):
+			cmd.Process.Kill()
+			<-done
+			werr = fmt.Errorf("worker still running after 120 s")
+		}
+		var res workerResult
+		if werr != nil || json.Unmarshal(stdout.Bytes(), &res) != nil {
+			// the child died: a runtime fatal error (or a hang) while several interpreters ran one Program
+			msg := stderr.String()
+			if i := strings.Index(msg, "fatal error:"); i >= 0 {
+				msg = msg[i:]
+			}
+			d["expected"], d["got"] = "every execution ends and the worker reports its outputs", fmt.Sprintf("worker: %v\n%s", werr, short(msg))
+			rep.Fail(hx.Failure{Class: "shared-program:runtime-fatal-error-in-concurrent-executions", Oracle: "concurrent-executions-of-one-program-complete", Detail: d})
+			continue
+		}
+		if res.ParseErr != "" {
+			rep.HarnessError("shared workload %s: %s", w.Name, res.ParseErr)
 			continue
 		}
 		if strings.Contains(res.Reference, "ERROR:") || strings.Contains(res.Reference, "PANIC:") {
@@ -752,20 +865,15 @@ func sharedOracle(rep *hx.Report, dir string, goroutines, rounds int) {
 			// test; the comparison below still applies (all executions must agree with it)
 			rep.Count("shared:reference-execution-ended-in-error")
 		}
-		bad := false
-		for i, o := range res.Outputs {
-			if o != res.Reference {
-				d["execution"], d["expected"], d["got"] = res.Labels[i], res.Reference, o
-				rep.Fail(hx.Failure{Class: "shared-program:output-differs-from-single-execution", Oracle: "executions-of-one-program-equal-single-execution", Detail: d})
-				bad = true
-				break
-			}
-		}
-		if !bad && res.SnapBefore != res.SnapAfter {
-			d["expected"], d["got"] = short(res.SnapBefore), short(res.SnapAfter)
+		switch {
+		case res.BadLabel != "":
+			d["execution"], d["expected"], d["got"] = res.BadLabel, res.Reference, res.Got
+			rep.Fail(hx.Failure{Class: "shared-program:output-differs-from-single-execution", Oracle: "executions-of-one-program-equal-single-execution", Detail: d})
+		case res.Changed:
+			d["expected"], d["got"] = "Program equal before and after the executions", map[string]any{"lines_only_before": res.Gone, "lines_only_after": res.Added}
 			rep.Fail(hx.Failure{Class: "shared-program:program-changed-by-execution", Oracle: "program-snapshot-equal-before-and-after", Detail: d})
 		}
-		rep.Count(fmt.Sprintf("shared:%s:executions=%d", w.Name, len(res.Outputs)))
+		rep.Count(fmt.Sprintf("shared:%s:executions=%d", w.Name, res.Execs))
 	}
 }
 
@@ -899,6 +1007,10 @@ func buildCases(o hx.Opts, r *hx.Rand) []*kase {
 }
 
 func main() {
+	if w := os.Getenv("C19_WORKER"); w != "" {
+		workerMain(w)
+		return
+	}
 	o := hx.ParseFlags()
 	if o.Replay != "" {
 		os.Exit(replay(o))
@@ -1018,6 +1130,7 @@ func main() {
 		if o.Tier == "thorough" {
 			g, rounds, reps = 16, 4, 25
 		}
+		fingerprintOracle(rep, dir)
 		for i := 0; i < reps; i++ {
 			sharedOracle(rep, dir, g, rounds)
 		}
@@ -1084,6 +1197,10 @@ func replay(o hx.Opts) int {
 			}
 		}
 		fmt.Printf("replay: %d parses of\n%s\nexpected: one outcome\ngot: %v\n", n, k.src, counts)
+	case "fingerprint":
+		dir, _ := os.MkdirTemp("", "c19")
+		defer os.RemoveAll(dir)
+		fingerprintOracle(rep, dir)
 	case "shared", "race":
 		dir, _ := os.MkdirTemp("", "c19")
 		defer os.RemoveAll(dir)
